@@ -275,12 +275,12 @@ class _Run(object):
         st = IN.get(g.raise_exit.id)
         if st is not None:
             seen = set()
-            for (exc, origin) in sorted(st.get("$pending", ()), key=lambda x: (x[0], x[1][0], x[1][1], x[1][2])):
+            for (exc, origin) in sorted(st.get("$pending", ()), key=lambda x: (x[0], x[1][0], x[1][1], x[1][2], x[1][3])):
                 if (exc, origin) in seen:
                     continue
                 seen.add((exc, origin))
                 ofi = self.prog.funcs.get(origin[0], self.fi)
-                onode = _NodeRef(origin[1], origin[2])
+                onode = _NodeRef(origin[1], origin[2], origin[4] if len(origin) > 4 else -1)
                 self.summary.escapes.append((exc, ofi, onode, origin[3]))
         for cb in self.an.observers:
             cb(self.fi, self.g, IN, self)
@@ -410,7 +410,8 @@ class _Run(object):
 
     # ---- helpers -------------------------------------------------------------------------------
     def origin(self, node, why):
-        return (self.fi.fq, getattr(node, "lineno", None) or 0, q.stmt_text(node) if node is not None and hasattr(node, "kind") else "", why)
+        return (self.fi.fq, getattr(node, "lineno", None) or 0, q.stmt_text(node) if node is not None and hasattr(node, "kind") else "", why,
+                getattr(node, "id", -1))
 
     def raise_(self, exc, node, why):
         self.raises.append((exc, self.origin(node, why)))
@@ -1108,6 +1109,10 @@ class _Run(object):
             if any(is_sub(ci.name, "Exception") for _ in [0]) or ci.name in PARENT:
                 return AV(["obj"], cls="exception")
             return obj(ci.name)
+        if isinstance(r, str) and r.split(".")[-1] in ("jdumps", "jloads") and (self.fi.fq, name) not in self.an.total_in:
+            self.an.op(self.fi, node, "JSON backend call %s" % r)
+            self.raise_(ANYEXC, node, "the JSON backend may reject the value (%s)" % r.split(".")[-1])
+            return STR if r.endswith("jdumps") else JSONV
         # methods on typed receivers
         if isinstance(f, ast.Attribute):
             base = self.ev(f.value, st, node)
@@ -1301,7 +1306,7 @@ class _Run(object):
         self.an.op(self.fi, node, "package call %s" % callee.fq)
         summ = self.an.analyze(callee, args)
         for (exc, ofi, onode, why) in summ.escapes:
-            self.raises.append((exc, (ofi.fq, onode.lineno, onode.text, why + " [via %s]" % callee.qual)))
+            self.raises.append((exc, (ofi.fq, onode.lineno, onode.text, why + " [via %s]" % callee.qual, onode.id)))
         self._last_call = (e, summ, amap)
         return summ.ret if summ.ret is not None else NONE
 
@@ -1310,9 +1315,10 @@ class _NodeRef(object):
     """(line, text) stand-in for a CFG node of another function, for reports."""
     kind = "ref"
 
-    def __init__(self, lineno, text):
+    def __init__(self, lineno, text, nid=-1):
         self.lineno = lineno
         self.text = text
+        self.id = nid
         self.ast = None
 
     def __repr__(self):
